@@ -291,6 +291,10 @@ def worker(chunk):
 
 def build_cases(thorough):
     cases = [("neg",), ("foreign",)]
+    # scale: the per-CPU section of /proc/stat longer than one read buffer (hundreds of CPUs, long-uptime counters)
+    big = [[10 ** 11 + (c + 1) * 100003 + 7 * i for i in range(10)] for c in range(600)]
+    cases.append(("times", big, 10))
+    cases.append(("pair", [5, 0, 3, 40, 0, 0, 0, 0, 0, 0], 10, 600, "percpu", False))
     for nf in (8, 10):
         rows12 = [[(c + 1) * 1000 + 7 * i for i in range(10)] for c in range(12)]
         cases.append(("times", rows12, nf))
